@@ -77,3 +77,12 @@ pub proof fn lemma_send_extends(c0: Seq<(Transaction, SendReply)>, c1: Seq<(Tran
 {
     if c1 == c0 { assert(c1.subrange(0, c0.len() as int) =~= c0); }
 }
+
+// C04 cadence: a penalty is due for rebroadcast at `height` when it has been waiting in the mempool for at least
+// CONFIRMATIONS_BEFORE_RETRY (6) blocks
+pub open spec fn is_stale(trackers: Map<UUID, TrackerRow>, height: u32, u: UUID) -> bool {
+    trackers.contains_key(u) && !trackers[u].confirmed && trackers[u].height as int <= height as int - 6
+}
+pub open spec fn is_stale_penalty(trackers: Map<UUID, TrackerRow>, height: u32, tx: Transaction) -> bool {
+    exists|u: UUID| #[trigger] is_stale(trackers, height, u) && tx == trackers[u].penalty_tx
+}
